@@ -6,11 +6,40 @@ open Driver
 /-- allowed peak heap for an input of `len` octets -/
 def allowance (len : Nat) : Nat := 64 * len + 1048576
 
+/-- accept / reject of the entry point `entry` according to the octet-level decoder models -/
+def decModel (entry : String) (b : List Nat) : Option Bool :=
+  if entry = "cert" then some (Rpki.CertDer.decodeCert b).isSome
+  else if entry = "crl" then some (Rpki.CrlDer.decodeCrl b).isSome
+  else if entry = "mft" ∨ entry = "roa" ∨ entry = "aspa" then some (Rpki.CmsDer.decodeTyped entry b).isSome
+  else if entry = "so" then some (Rpki.CmsDer.decodeSigObj b).isSome
+  else if entry = "mftr" then some (Rpki.CmsDer.decodeTypedM true "mft" b).isSome
+  else if entry = "roar" then some (Rpki.CmsDer.decodeTypedM true "roa" b).isSome
+  else if entry = "aspar" then some (Rpki.CmsDer.decodeTypedM true "aspa" b).isSome
+  else if entry = "sor" then some (Rpki.CmsDer.decodeSigObjM true b).isSome
+  else if entry = "rta" ∨ entry = "rtar" then some (Rpki.RtaDer.decodeRta b).isSome
+  else if entry = "tal" then some (Rpki.Tal.decodeTal b).isSome
+  else if entry = "key" then some (Rpki.Tal.decodeKey b).isSome
+  else if entry = "csr" then some (Rpki.CsrDer.decodeCsr false b).isSome
+  else if entry = "bcsr" then some (Rpki.CsrDer.decodeCsr true b).isSome
+  else if entry = "idcert" then some (Rpki.SigMsgDer.decodeIdCert b).isSome
+  else if entry = "sigmsg" then some (Rpki.SigMsgDer.decodeSigMsg b).isSome
+  else if entry = "sigmsgr" then some (Rpki.SigMsgDer.decodeSigMsgM true b).isSome
+  else none
+
 def handle (toks : List String) (impl : String) : Verdict :=
   match toks with
   | ["dec", entry, h] =>
     let len := if h = "-" then 0 else h.length / 2
-    { oracle :=
+    -- every `dec` case is also put to the decoder model of its entry point: accept / reject must agree
+    let implAccept : Option Bool :=
+      if impl.startsWith "ok " ∨ impl = "panic@access" ∨ impl = "panic@reencode" then some true
+      else if impl.startsWith "err " then some false else none
+    let modelAccept : Option Bool := match (parseHex h).map (·.map UInt8.toNat) with
+      | some b => decModel entry b | none => none
+    { mismatch := match implAccept, modelAccept with
+        | some a, some m => if a = m then none else some s!"the decoder model of {entry} says {if m then "accept" else "reject"}"
+        | _, _ => none,
+      oracle :=
         if impl = "panic@decode" then some s!"decoding entry point {entry} panicked"
         else if impl = "panic@access" then some s!"an accessor of a value decoded by {entry} panicked"
         else if impl = "panic@reencode" then some s!"re-encoding a value decoded by {entry} panicked"
